@@ -9,6 +9,7 @@ import (
 	"go/ast"
 	"go/token"
 	"go/types"
+	"os"
 	"sort"
 	"strings"
 
@@ -1169,13 +1170,22 @@ func inheritedRel(c *Ctx, f *ssa.Function, s *indexSite) []term {
 		return nil
 	}
 	ci := -1
+	suffix := "" // the collection is a field of (an object reached from) the parameter: ".Type:field…"
 	for i, p := range f.Params {
 		if key == "P:"+p.Name() {
 			ci = i
+		} else if strings.HasPrefix(key, "P:"+p.Name()+".") {
+			ci, suffix = i, strings.TrimPrefix(key, "P:"+p.Name())
 		}
 	}
 	if ci < 0 {
 		return nil
+	}
+	if suffix != "" {
+		// the callee must not have changed the field before the expression
+		if w, _ := writesBetween(c, f, key, s.Ins, []*ssa.BasicBlock{f.Blocks[0]}); w {
+			return nil
+		}
 	}
 	var out []term
 	for qi, q := range f.Params {
@@ -1196,13 +1206,27 @@ func inheritedRel(c *Ctx, f *ssa.Function, s *indexSite) []term {
 			facts := newPFFacts()
 			facts.ctx = c
 			facts.absorb(c, ff.At(cs.Call.Block()), 0)
-			ckey := collKey(args[ci])
+			ckey := collKey(args[ci]) + suffix
 			at := termOf(args[qi])
+			if os.Getenv("WUDEBUG") == "rel" {
+				fmt.Fprintf(os.Stderr, "inheritedRel %s key=%s ckey=%s at=%v lenGE=%v\n", f.Name(), key, ckey, at, facts.lenGE)
+			}
 			k, ok := int64(0), false
 			for _, t := range facts.lenGE[ckey] {
 				if t.base == at.base && at.base != nil {
 					if d := t.k - at.k; !ok || d > k {
 						k, ok = d, true
+					}
+				}
+			}
+			// the argument is what a search in the very collection answered: below its length (-1 included)
+			if call, isCall := at.base.(*ssa.Call); isCall && !ok {
+				if subj, ok2 := indexLikeResult(c, call); ok2 && suffix == "" && subj == args[ci] {
+					k, ok = 1-at.k, true
+				}
+				if k2, ok2 := indexLikeResultKey(c, call); ok2 && k2 == ckey {
+					if w, _ := writesBetween(c, cs.Fn, ckey, cs.Call, []*ssa.BasicBlock{call.Block()}); !w {
+						k, ok = 1-at.k, true
 					}
 				}
 			}
